@@ -280,6 +280,53 @@ def run(prog, rep):
     else:
         msg = "platform_key has %d writer(s): %s" % (len(writers), sorted(set(f.name for f, n in writers)))
     rep.ob("C06.4", nw, "key", okk, msg, nw.loc[0])
+    # the constructor records what it was asked for: the create path decides by sem->mode and passes sem->init_val, so both are the
+    # caller's arguments, stored before the create path runs (a lost `ret->mode = mode` leaves OPEN, the zero of the allocation: CREATE
+    # on an existing name silently keeps the old counter)
+    raw_nw = u.fn("p_semaphore_new", raw=True)
+    pnames = raw_nw.param_names()
+    crt = [(b, i, c) for (b, i, c) in raw_nw.calls() if c.get("callee") in u.functions and c.get("args") and strip_casts(c["args"][0])["k"] == "ref"
+           and any(cc.get("callee") == "sem_open" for (b2, i2, cc) in u.functions[c["callee"]].inlined().calls())]
+    for fld, pidx in (("mode", 2), ("init_val", 1)):
+        sts_ = [(b, i, n) for (b, i, n) in raw_nw.nodes(elsewhere=True) if n["k"] == "asg" and strip_casts(n["l"])["k"] == "member" and strip_casts(n["l"])["field"] == fld]
+        okp = len(sts_) == 1 and len(pnames) > pidx and root_var(sts_[0][2]["r"]) == pnames[pidx] and strip_casts(sts_[0][2]["r"])["k"] == "ref" and len(crt) == 1 \
+            and raw_nw.pos_dominates((sts_[0][0].id, sts_[0][1]), (crt[0][0].id, crt[0][1]))
+        rep.ob("C06.4", raw_nw, "records:" + fld, okp, "the handle's %s is the caller's argument, stored before the create path runs" % fld if okp else
+               "p_semaphore_new does not store its %s argument into the handle before creating the native semaphore: the create path sees %s" % (
+                   pnames[pidx] if len(pnames) > pidx else fld, "mode 0 (OPEN) whatever was asked for" if fld == "mode" else "the initial value 0"), sts_[0][2] if sts_ else raw_nw.loc[0])
+    # the name buffer holds name + suffix + NUL
+    if okk:
+        al = [n for (b, i, n) in nw.nodes(elsewhere=True) if n["k"] == "asg" and root_var(n["l"]) == nv and strip_casts(n["l"])["k"] == "ref" and strip_casts(n["r"]) is not None
+              and strip_casts(n["r"])["k"] == "call" and strip_casts(n["r"]).get("callee") in ("p_malloc0", "p_malloc")]
+        oksz, szmsg = False, "the allocation of the name buffer was not found"
+        if len(al) == 1:
+            terms, const, names = [], 0, 0
+            stack = [strip_casts(al[0]["r"])["args"][0]]
+            while stack:
+                e = strip_casts(stack.pop())
+                if e is None:
+                    continue
+                if e["k"] == "bin" and e["op"] == "+":
+                    stack += [e["l"], e["r"]]
+                elif cv(e) is not None:
+                    const += cv(e)
+                elif e["k"] == "call" and e.get("callee") in ("strlen", "__builtin_strlen") and strip_casts(e["args"][0])["k"] == "str":
+                    const += len(strip_casts(e["args"][0]).get("v", "")) if strip_casts(e["args"][0]).get("v") is not None else 0
+                elif e["k"] == "call" and e.get("callee") in ("strlen", "__builtin_strlen") and root_var(e["args"][0]) == namep:
+                    names += 1
+                else:
+                    terms.append(e)
+            suffix = strip_casts(ct[0]["args"][1])
+            slen = len(suffix.get("v", "")) if suffix.get("v") is not None else None
+            if terms or slen is None:
+                oksz, szmsg = True, "size term not decomposable: not judged"
+            else:
+                oksz = names == 1 and const >= slen + 1
+                szmsg = "the name buffer holds strlen (name) + %d bytes for the %d-byte suffix and the terminator" % (const, slen)
+                if not oksz:
+                    szmsg = "line %d: the buffer for name + suffix is strlen (name) x %d + %d bytes, but \"%s\" plus the terminating zero needs strlen (name) + %d: strcat writes past the block" % (
+                        line(al[0]), names, const, suffix.get("v", ""), slen + 1)
+        rep.ob("C06.4", nw, "key:buffer", oksz, szmsg, al[0] if al else nw.loc[0])
     # the key is a function of the name alone: two threads opening different names at the same moment must not meet in shared
     # state (one hash context behind a static pointer would be fed both names and hand each thread a digest of neither, so "one
     # counter per name" and "other names unaffected" fall together).  No function in the derivation's closure in pipc.c refers to
@@ -296,7 +343,7 @@ def run(prog, rep):
     rep.ob("C06.4", pi.functions["p_ipc_get_platform_key"], "key:pure", not stat, "the key derivation (%s) keeps no state between calls: no static or global variable is referred to" % ", ".join(clo) if not stat else
            "line %d: %s uses the %s variable `%s` while deriving a key: concurrent opens of different names share it, and each can come back with a key computed from the other's name" % (
                line(stat[0][1]), stat[0][0], "static local" if stat[0][1].get("decl") == "staticlocal" else "global", stat[0][1]["name"]), stat[0][1] if stat else pi.functions["p_ipc_get_platform_key"].loc[0])
-    rep.floor("C06.4", 2)
+    rep.floor("C06.4", 5)
     sysv(prog, rep)
 
 
@@ -468,6 +515,10 @@ def run(prog, rep):
 RENAME_LOCALS = ['src/psemaphore-posix.c']
 
 SELFTEST = [
+    dict(id="new-forgets-mode", file="src/psemaphore-posix.c", expect="C06.4",
+         old="\tret->init_val = init_val;\n\tret->mode = mode;\n", new="\tret->init_val = init_val;\n"),
+    dict(id="name-buffer-without-terminator", file="src/psemaphore-posix.c", expect="C06.4",
+         old="p_malloc0 (strlen (name) + strlen (P_SEM_SUFFIX) + 1)", new="p_malloc0 (strlen (name) + strlen (P_SEM_SUFFIX))"),
     dict(id="sysv-clean-handle-id-zero-invalid", file="src/psemaphore-sysv.c", expect="C06.5",
          old="\tif (sem->sem_hdl != P_SEM_INVALID_HDL &&\n\t    sem->sem_created == TRUE &&", new="\tif (sem->sem_hdl > 0 &&\n\t    sem->sem_created == TRUE &&"),
     dict(id="platform-key-static-context", file="src/pipc.c", expect="C06.4",
